@@ -415,6 +415,9 @@ def job_sustained_turn(ctx, which):
              ('Complementary[gain=1] MARG', True, lambda g, a, m, f: F.Complementary(gyr=g, acc=a, mag=m, gain=1.0, frequency=f).Q),
              ('Complementary[gain=0.98] MARG', True, lambda g, a, m, f: F.Complementary(gyr=g, acc=a, mag=m, gain=0.98, frequency=f).Q),
              ('Complementary[gain=0.98] IMU', False, lambda g, a, m, f: F.Complementary(gyr=g, acc=a, gain=0.98, frequency=f).Q)]
+    for gain_ in (0.0, 0.1, 0.5, 0.9):              # every valid gain over a record of several hundred samples (0: the estimate is the acc / mag fix of each sample)
+        extra.append((f'Complementary[gain={gain_:g}] MARG', True, lambda g, a, m, f, gain_=gain_: F.Complementary(gyr=g, acc=a, mag=m, gain=gain_, frequency=f).Q))
+        extra.append((f'Complementary[gain={gain_:g}] IMU', False, lambda g, a, m, f, gain_=gain_: F.Complementary(gyr=g, acc=a, gain=gain_, frequency=f).Q))
     for r in rr.registry():
         extra.append((f'{r.key} cfg#0', r.has_mag, lambda g, a, m, f, r=r: r.output(r.batch(g, a, m, dict(r.cfgs[0], frequency=f)))))
     for axn, ax in (('z', np.array([0.0, 0.0, 1.0])), ('x', np.array([1.0, 0.0, 0.0])), ('y', np.array([0.0, 1.0, 0.0])), ('generic', np.array([0.3, -0.5, 0.4]) / math.sqrt(0.5))):
